@@ -84,7 +84,7 @@ func c06(c *Ctx) {
 	c.R.Rule = "abstract case = (JSON-mapping feature as request and response type; routing/placement RPCs for parameters) x direction {Go-client request, TS-client request, Go-server 200 response, 400 ValidationError, 500 Error} x value class + component schema satisfiability by the JSON of the default and of a fully populated value; " +
 		"non-trivial = the body/parameter was captured on the wire (tap) during a real call and validated by python-jsonschema (Draft 2020-12) against the schema the same request's OpenAPI document gives for that operation/status, with every use site closed by unevaluatedProperties:false"
 	c.R.Assume("python-jsonschema 4.26; `format` annotation-only; parameters deserialised per OpenAPI style defaults (simple/form)")
-	feats := sampleFeats(c, corpus.Features(), 2)
+	feats := corpus.Features() // every feature in both tiers; quick thins values
 	fl, err := buildFeatureLab(c, "c06", feats, []variant{{Tag: "s", Plugins: []string{"go-http", "go-client"}}}, true, []string{"top", "child", "repeated", "map"}, false)
 	if err != nil {
 		c.R.Harness(err.Error())
